@@ -550,6 +550,18 @@ impl endpoint::Session for ListenerSession {
         // Pre-extract the LinkFlow before the inner call consumes the Flow,
         // so we can buffer it if the handle is not yet registered.
         let link_flow_backup = LinkFlow::try_from(flow.clone()).ok();
+        // The session-level part of the same flow, in case the link-level part cannot be
+        // applied yet
+        let session_flow = Flow {
+            handle: None,
+            delivery_count: None,
+            link_credit: None,
+            available: None,
+            drain: false,
+            echo: false,
+            properties: None,
+            ..flow.clone()
+        };
 
         match self.session.on_incoming_flow(flow).await {
             Ok(result) => Ok(result),
@@ -573,7 +585,11 @@ impl endpoint::Session for ListenerSession {
                 } else {
                     // Session-level flow with no link handle — nothing to buffer.
                 }
-                Ok(None)
+                // The inner call stopped at the unknown handle, after it had updated the
+                // session window but before it released the transfers that were waiting for
+                // that window. Applying the session-level part again is idempotent and
+                // sends them
+                self.session.on_incoming_flow(session_flow).await
             }
             Err(e) => Err(e),
         }
